@@ -8,6 +8,17 @@ def repo_commits():
     return [l.split()[0] for l in out.splitlines() if " verif:" in " " + l]
 
 CHECKS = {
+ "C05": dict(
+  level="exploration", design="§4 C05",
+  technique="runtime monitoring: hostile byte strings delivered to every receiving entry point of the real runtime (and emitted subscriber callbacks) in child processes, input logged before delivery, canary after each input, panic-trace and goroutine-dump based verdicts",
+  text="~3 000 (quick) to ~10^5 (thorough) inputs per entry point (all short strings, size-field mutations incl. negative-as-int32 and larger-than-buffer, truncation at every offset, byte flips) x 8 entry points x 3 protocols; after every input a well-formed canary must be served. A crash is attributed to the last logged input and the first library frame of the panicking goroutine.",
+  note="Structured inputs, not all byte strings. Memory amplification is excluded (children run under a 1 GiB data limit; inputs that exhaust it are counted, not judged). Trusted: embedded nats-server, own STOMP broker, reference codecs."),
+ "C07": dict(
+  level="exploration", design="§4 C07",
+  technique="runtime monitoring: emitted publishers/subscribers over an embedded nats-server and an own STOMP 1.2 broker; exactly-once / order / payload / header oracle over recorded handler invocations with unique message ids; raw malformed and foreign-topic injections; sentinel through a second subscriber; goroutine-dump based worker-death criterion",
+  text="Sequences of 50-2000 valid, malformed (12 kinds) and foreign-topic (4 kinds) messages x NATS (1-8 workers) and STOMP x 3 protocols: the subscriber log must equal the valid messages published between Subscribe and Unsubscribe (ordered for one worker), nothing published after Unsubscribe returned may start an invocation, a malformed message may not stop later deliveries.",
+  note="In-flight messages at Unsubscribe are unconstrained. STOMP broker does exact destination matching, no redelivery. Worker-death verdicts come from goroutine dumps."),
+
  "C02": dict(
   level="exploration", design="§4 C02",
   technique="runtime monitoring: differential execution of emitted Go Read/Write against an independent schema-less Thrift codec and the IDL model, over seeded random programs and model-generated values (reflection-driven, registries added to emitted packages by go/ast)",
